@@ -121,15 +121,20 @@ def run_encrypt(step, d, outdir, key, route):
     """Execute one invocation; returns dict of expectations."""
     kd = os.path.join(d, "keys")
     os.makedirs(kd, exist_ok=True)
-    with open(os.path.join(kd, "FWENC.bin"), "wb") as fh:
+    kname = step.get("kname", "FWENC")
+    with open(os.path.join(kd, kname + ".bin"), "wb") as fh:
         fh.write(key)
+    if "." in kname:
+        # a different key under the name obtained by cutting the last dotted part: it must NOT be the one that is used
+        with open(os.path.join(kd, kname.rsplit(".", 1)[0] + ".bin"), "wb") as fh:
+            fh.write(bytes(b ^ 0x5A for b in key))
     if step["sub"] == "encrypt":
         pt = pbytes(step["size"], step["salt"])
         fw = os.path.join(d, "fw.bin")
         with open(fw, "wb") as fh:
             fh.write(pt)
         if route == "cli":
-            ok, r = sut.cli_ok(["encrypt", "encrypt-and-generate", "--firmware", fw, "--key-name", "FWENC", "--key-id", hex(step["kid"]), "--context", kd,
+            ok, r = sut.cli_ok(["encrypt", "encrypt-and-generate", "--firmware", fw, "--key-name", kname, "--key-id", hex(step["kid"]), "--context", kd,
                                 "--output-dir", outdir, "--hash-alg", step["hash"], "--kms-script", sut.KMS_SCRIPT(), "--encrypt-script", sut.ENCRYPT_SCRIPT()], d)
             if not ok:
                 raise RuntimeError(f"CLI exit {r.returncode}: {r.stderr[-300:]}")
@@ -138,7 +143,7 @@ def run_encrypt(step, d, outdir, key, route):
 
             mod = boot.load_by_path(sut.ENCRYPT_SCRIPT(), "vf_encrypt_script")
             enc = mod.suit_encryptor_factory()
-            content, tag, info, digest, plen = enc.encrypt_and_generate(pt, "FWENC", step["kid"], kd, SuitDigestAlgorithms(step["hash"]),
+            content, tag, info, digest, plen = enc.encrypt_and_generate(pt, kname, step["kid"], kd, SuitDigestAlgorithms(step["hash"]),
                                                                         SuitKWAlgorithms("direct"), sut.KMS_SCRIPT())
             for name, data_ in (("plain_text_digest.bin", digest), ("suit_encryption_info.bin", info), ("encrypted_content.bin", tag + content)):
                 with open(os.path.join(outdir, name), "wb") as fh:
@@ -148,7 +153,7 @@ def run_encrypt(step, d, outdir, key, route):
         else:
             from suit_generator import cmd_encrypt
 
-            cmd_encrypt.main(encrypt_subcommand="encrypt-and-generate", firmware=fw, key_name="FWENC", key_id=step["kid"], context=kd, output_dir=outdir,
+            cmd_encrypt.main(encrypt_subcommand="encrypt-and-generate", firmware=fw, key_name=kname, key_id=step["kid"], context=kd, output_dir=outdir,
                              hash_alg=step["hash"], kw_alg="direct", kms_script=sut.KMS_SCRIPT(), encrypt_script=sut.ENCRYPT_SCRIPT())
         return {"plaintext": pt}
     blob = pbytes(28 + step["size"], step["salt"])
@@ -251,6 +256,8 @@ def judge(case, acc, ctx):
             nt = (size > 0 and (step.get("hash", "sha-256") != "sha-256" or step["kid"] in KIDS or size % 16 != 0)) or (i > 0 and case.get("reuse", True))
             classes = [f"sub:{step['sub']}", f"route:{route}", f"size:{size if size in SIZES else 'other'}", f"kid:{kid_class(step['kid'])}"]
             classes += [f"hash:{step['hash']}"] if step["sub"] == "encrypt" else [f"kw:{step['kw']}"]
+            if "." in step.get("kname", ""):
+                classes.append("key-name-with-dot")
             if i > 0 and case.get("reuse", True):
                 classes.append("reused-output-dir")
             acc.case(nt_key=(step["sub"], size, kid_class(step["kid"]), step.get("hash"), step.get("kw"), route, i) if nt else None, classes=classes,
@@ -271,7 +278,8 @@ def step_s():
 
     size = st.one_of(st.sampled_from(SIZES), st.integers(0, 300), st.integers(0, 20000))
     kid = st.one_of(st.sampled_from(KIDS), st.integers(0, 2**32 - 1))
-    enc = st.fixed_dictionaries({"sub": st.just("encrypt"), "size": size, "salt": st.integers(0, 10**6), "kid": kid, "hash": st.sampled_from(list(HASHES))})
+    enc = st.fixed_dictionaries({"sub": st.just("encrypt"), "size": size, "salt": st.integers(0, 10**6), "kid": kid, "hash": st.sampled_from(list(HASHES)),
+                                 "kname": st.sampled_from(["FWENC", "FWENC", "fw_enc.v2", "a.b.c", "key 1", "FWENC_APPLICATION_GEN1"])})
     gen = st.fixed_dictionaries({"sub": st.just("geninfo"), "size": size, "salt": st.integers(0, 10**6), "kid": kid, "kw": st.sampled_from(["direct", "direct", "aes-kw-256"]),
                                  "eklen": st.sampled_from([0, 1, 24, 40])}).map(lambda s: {**s, "eklen": max(s["eklen"], 24) if s["kw"] == "aes-kw-256" else s["eklen"]})
     return st.one_of(enc, enc, gen)
@@ -323,7 +331,7 @@ def replay(ctx, check, case):
 def finalize(ctx, m, ev):
     c = m["counters"]
     ev["coverage"]["exhaustive_scope"] = "size x digest algorithm x key id grid (9 x 5 x 12) enumerated completely; sequences sampled"
-    need = ["sub:encrypt", "sub:geninfo", "route:cli", "route:lib", "reused-output-dir", "size:0", "size:65537", "kw:aes-kw-256", "kw:direct"] + [f"hash:{h}" for h in HASHES]
+    need = ["sub:encrypt", "sub:geninfo", "route:cli", "route:lib", "reused-output-dir", "size:0", "size:65537", "kw:aes-kw-256", "kw:direct", "key-name-with-dot"] + [f"hash:{h}" for h in HASHES]
     for n in need:
         if not c.get(n):
             raise boot.HarnessError(f"interesting class {n} is empty")
